@@ -287,7 +287,14 @@ impl<'a> P<'a> {
                 self.next();
                 self.dot_rhs(rbp)
             }
-            T::LBracket | T::Filter => self.expr(rbp),
+            // after an expression a bracket is a bracket-specifier: index,
+            // slice or '[*]' -- never a multi-select list
+            T::LBracket => match self.peek_at(1) {
+                T::Num(_) | T::Colon => self.expr(rbp),
+                T::Star if matches!(self.peek_at(2), T::RBracket) => self.expr(rbp),
+                _ => self.err("after a projection a bracket must hold a number, a slice or '*'"),
+            },
+            T::Filter => self.expr(rbp),
             t if lbp(t) < PROJECTION_STOP => Ok(RefExpr::Current),
             _ => self.err("expected '.', '[' or '[?' after a projection"),
         }
